@@ -379,20 +379,38 @@ def rule_depth(ctx):
         ctx.check(not problems, "EX.DEPTH-TABLE", LF + "#unit-branches", fm, fm.node,
               "each key of DEPTH_UNITS (%s) selects its own conversion branch" % sorted(table), "; ".join(problems))
     # detection test in read(): every tabulated spelling is recognised; ASCII spellings in either case
-    from rules.common import host_unit_detection
-    fr = host_unit_detection(p)
-    test = None
-    for s in walk_shallow(fr.node):
-        if isinstance(s, ast.For) and "DEPTH_UNITS" in ast.unparse(s.iter):
-            for iff in ast.walk(s):
-                if isinstance(iff, ast.If) and any(isinstance(c, ast.Call) and isinstance(c.func, ast.Attribute) and c.func.attr == "append" for st in iff.body for c in ast.walk(st)):
-                    test = (s, iff)
-    if test is None:
-        raise AnalysisError("cannot find the index-unit detection loop in LASFile.read")
-    loop, iff = test
-    posv = loop.target.elts[1].id if isinstance(loop.target, ast.Tuple) else None
-    inner = enclosing(iff, (ast.For,))
-    cu = inner.target.id if inner is not None and isinstance(inner.target, ast.Name) else None
+    from rules.common import read_family
+
+    class _T(object):
+        pass
+    found = None
+    for fr in read_family(p):
+        for s in ast.walk(fr.node):
+            # loop form: for unit, spellings in DEPTH_UNITS.items(): for item in ...: if <test>: matches.append(unit)
+            if isinstance(s, ast.For) and "DEPTH_UNITS" in ast.unparse(s.iter):
+                for iff_ in ast.walk(s):
+                    if isinstance(iff_, ast.If) and any(isinstance(c, ast.Call) and isinstance(c.func, ast.Attribute) and c.func.attr in ("append", "add")
+                                                        for st in iff_.body for c in ast.walk(st)):
+                        inner_ = enclosing(iff_, (ast.For,))
+                        found = (fr, s, iff_.test, s.target.elts[1].id if isinstance(s.target, ast.Tuple) else None,
+                                 inner_.target.id if inner_ is not None and isinstance(inner_.target, ast.Name) else None)
+            # comprehension form: {unit for unit, spellings in DEPTH_UNITS.items() for item in ... if <test>}
+            if isinstance(s, (ast.SetComp, ast.ListComp, ast.GeneratorExp)) and len(s.generators) == 2 \
+                    and "DEPTH_UNITS" in ast.unparse(s.generators[0].iter) and len(s.generators[1].ifs) == 1 and not s.generators[0].ifs:
+                g0, g1 = s.generators
+                found = (fr, s, g1.ifs[0], g0.target.elts[1].id if isinstance(g0.target, ast.Tuple) else None,
+                         g1.target.id if isinstance(g1.target, ast.Name) else None)
+        if found:
+            break
+    if found is None:
+        ctx.undecided("EX.DEPTH-TABLE", LF + ".read#unit-detection", p.func(LF + ".read"), p.func(LF + ".read").node,
+                      "no loop or comprehension over defaults.DEPTH_UNITS with a spelling test found in LASFile.read or its helpers")
+        ctx.floor("EX.DEPTH-TABLE", 0)
+        ctx.floor("EX.DEPTH-ALGEBRA", 1)
+        return
+    fr, loop, test_expr, posv, cu = found
+    iff = _T()
+    iff.test = test_expr
     problems = []
     for key, spellings in table.items():
         for sp in spellings:
@@ -426,7 +444,7 @@ def rule_depth(ctx):
                     raise NotConst(name)
                 if bool(fold(iff.test, env)):
                     problems.append("unit %r is recognised as %s" % (v, key))
-    ctx.check(not problems, "EX.DEPTH-TABLE", LF + ".read#unit-detection", fr, iff,
+    ctx.check(not problems, "EX.DEPTH-TABLE", LF + ".read#unit-detection", fr, loop,
               "every spelling tabulated in DEPTH_UNITS is recognised (ASCII spellings in any case) and none is recognised as another unit",
               "; ".join(list(dict.fromkeys(problems))[:4]))
     # conflict -> None ; single -> that unit
@@ -440,9 +458,17 @@ def rule_depth(ctx):
               and isinstance(x.test.ops[0], ast.Eq) and isinstance(x.test.left, ast.Call) and ast.unparse(x.test.left.func) == "len"
               and isinstance(x.test.comparators[0], ast.Constant) and x.test.comparators[0].value == 1
               and any(isinstance(a, ast.Assign) and any(is_result(t) for t in a.targets) for a in x.body)]
-    nones = [a for a in walk_shallow(fr.node) if isinstance(a, ast.Assign) and any(is_result(t) for t in a.targets)
-             and isinstance(a.value, ast.Constant) and a.value.value is None]
-    ok = bool(single) and len(nones) >= 2
+    # everything else (no match, several matches) leaves the unit undefined: every result assignment on the else side is None
+    ok = False
+    for x in single:
+        others = [a for st in x.orelse for a in ast.walk(st) if isinstance(a, ast.Assign) and any(is_result(t) for t in a.targets)]
+        if others and all(isinstance(a.value, ast.Constant) and a.value.value is None for a in others):
+            ok = True
+        elif not x.orelse:
+            # guard-clause form: the result is None unless the single-match branch overwrites it
+            pre = [a for a in walk_shallow(fr.node) if isinstance(a, ast.Assign) and any(is_result(t) for t in a.targets)
+                   and a.lineno < x.lineno and isinstance(a.value, ast.Constant) and a.value.value is None]
+            ok = bool(pre)
     ctx.check(ok, "EX.DEPTH-TABLE", LF + ".read#conflict", fr, loop, "one match defines the unit, none or several leave it undefined",
               "the index unit is no longer left undefined when STRT/STOP/STEP and the first curve conflict")
     ctx.floor("EX.DEPTH-TABLE", 3)
@@ -521,6 +547,13 @@ def rule_csv(ctx):
                                 "unit row is silently dropped")
             if "units" not in names or "units_loc" not in names:
                 problems.append("the unit row is not controlled by `units` and units_loc == 'line'")
+        elif (isinstance(argnode, ast.Name) and enclosing(c, (ast.For,)) is not None
+              and isinstance(enclosing(c, (ast.For,)).target, ast.Name) and enclosing(c, (ast.For,)).target.id == argnode.id
+              and ast.unparse(enclosing(c, (ast.For,)).iter) == "self.data"):
+            # `for row in self.data: writerow(row)` - iterating the 2-D array yields its rows in order
+            kinds["data"] = names
+            if names - {argnode.id}:
+                problems.append("data records are written only under %s" % sorted(names))
         elif "self.data" in arg:
             kinds["data"] = names
             lp = enclosing(c, (ast.For,))
@@ -612,11 +645,25 @@ def rule_xlsx(ctx):
         problems.append("item cells are %s, expected mnemonic, unit, value, descr in columns 1-4" % sorted(fields))
     # row counter increments once per item
     incs = [s for s in ast.walk(fi.node) if isinstance(s, ast.AugAssign) and isinstance(s.target, ast.Name) and s.target.id == counter]
-    if counter is not None and (len(incs) != 1 or not (isinstance(incs[0].value, ast.Constant) and incs[0].value.value == 1)):
+    enum_counter = any(isinstance(l, ast.For) and isinstance(l.iter, ast.Call) and ast.unparse(l.iter.func) == "enumerate"
+                       and isinstance(l.target, ast.Tuple) and isinstance(l.target.elts[0], ast.Name) and l.target.elts[0].id == counter
+                       for l in ast.walk(fi.node))
+    if enum_counter and not incs:
+        pass   # one row per element of the enumerated (section, item) stream
+    elif counter is not None and (len(incs) != 1 or not (isinstance(incs[0].value, ast.Constant) and incs[0].value.value == 1)):
         problems.append("the header row counter does not advance by one per item")
     # curves sheet: inside `for <j>, <value> in enumerate(curve.data)`: NaN branch writes "", other branch writes <value>
-    inner = [l for l in ast.walk(fi.node) if isinstance(l, ast.For) and isinstance(l.iter, ast.Call) and "enumerate" in ast.unparse(l.iter.func)
-             and ".data" in ast.unparse(l.iter)]
+    def per_curve_samples(l):
+        # enumerate(<curve>.data[, start]) where <curve> is the variable of an enclosing loop over the curves
+        if not (isinstance(l, ast.For) and isinstance(l.iter, ast.Call) and "enumerate" in ast.unparse(l.iter.func) and l.iter.args):
+            return False
+        a = l.iter.args[0]
+        if not (isinstance(a, ast.Attribute) and a.attr == "data" and isinstance(a.value, ast.Name)):
+            return False
+        outer = enclosing(l, (ast.For,))
+        return outer is not None and a.value.id in {n.id for n in ast.walk(outer.target) if isinstance(n, ast.Name)} \
+            and "curves" in ast.unparse(outer.iter)
+    inner = [l for l in ast.walk(fi.node) if per_curve_samples(l)]
     if not inner:
         problems.append("the Curves sheet no longer loops over every sample of every curve")
     else:
